@@ -1052,28 +1052,20 @@ fn hist_case<TG: TimeGetter<E>>(rep: &mut Report, case: u64, rng: &mut Rng, tg: 
                     events.borrow_mut().clear();
                     let got = ad.update();
                     let ev: String = events.borrow().iter().collect();
-                    let exp = match (h, t) {
-                        (Some(e), _) => Err(Error::Other(*e)),
-                        (None, Some(e)) => Err(Error::Other(*e)),
-                        (None, None) => Ok(()),
-                    };
-                    rep.eval();
-                    if got != exp {
-                        rep.violation(&format!("C15/history/update-result/{}", cname), sub, case,
-                            format!("update() with history error {:?}, time-getter error {:?} returned {:?}, expected {:?}; {}", h, t, got, exp, ctx(&ops)));
-                    }
-                    // "updates history then the time getter": with a scripted clock both calls are visible;
-                    // when the history's own update fails the statement is silent on the time getter.
-                    let ok = match (h, kind) {
-                        (Some(_), _) => ev.matches('h').count() == 1 && ev.starts_with('h'),
-                        (None, 0) => ev == "ht",
-                        (None, _) => ev == "h",
+                    // The statement says nothing about GetterFromHistory::update (neither the order of the
+                    // two inner updates, nor which of two errors wins, nor whether the second inner update is
+                    // skipped after a failure). Only what every reading supports is required: Ok(()) when
+                    // neither inner update fails, and an error, if any, is one injected during this call.
+                    // (A panic is reported by the case-level capture; the get() clause is checked right below.)
+                    let ok = match got {
+                        Ok(()) => true,
+                        Err(e) => (h.is_some() && e == Error::Other(h.unwrap())) || (t.is_some() && e == Error::Other(t.unwrap())),
                     };
                     rep.eval();
                     rep.tally(if h.is_some() { "hist_update/history-error" } else if t.is_some() { "hist_update/time-getter-error" } else { "hist_update/ok" });
                     if !ok {
-                        rep.violation(&format!("C15/history/update-calls/{}", cname), sub, case,
-                            format!("update() made the update calls {:?} (h = history, t = time getter), history error {:?}, time-getter error {:?}; {}", ev, h, t, ctx(&ops)));
+                        rep.violation(&format!("C15/history/update-foreign-error/{}", cname), sub, case,
+                            format!("update() with injected history error {:?}, time-getter error {:?} returned {:?} (inner update calls seen: {:?}, h = history, t = time getter); {}", h, t, got, ev, ctx(&ops)));
                     }
                     upd_err.set(None);
                     if let Ctl::Mine(c) = &ctl {
